@@ -33,6 +33,10 @@ class RandomSource(abc.ABC):
         for choice, acc in zip(choices, acc_weights):
             if rand_value < acc:
                 return choice
+        # rand_value == total: fall back to the last option that has a positive weight
+        for choice, weight in zip(reversed(choices), reversed(weights)):
+            if weight > 0:
+                return choice
         return choices[0]
 
     def shuffle(self, lst: list[T]):
